@@ -26,6 +26,18 @@ OB_CKY = "C02/cky.IncrementalCKY.__call__/equals-derivation-sum"
 OB_MAT = "C02/cfg.CFG.materialize/lists-exactly-nonzero-strings"
 
 
+NEGLIGIBLE = 1e-10
+
+
+def _negligible(w):
+    if isinstance(w, bool):
+        return False
+    try:
+        return abs(float(w)) <= NEGLIGIBLE
+    except (TypeError, ValueError, OverflowError):
+        return False
+
+
 def make_cases(tier, seed):
     rng = random.Random(seed)
     maxlen = 4 if tier == "quick" else 5
@@ -121,9 +133,13 @@ def check_case(case):
                 viol(OB_MAT, "raised: " + lang.split(":")[0], None, lang, "max_length=%d" % m, "materialize")
                 continue
             got = {tuple(k): val(v) for k, v in lang.items() if not ops.is_zero(val(v))}
-            if set(got) != set(exp):
+            # the library's fixed points (null weights, closures) stop at an absolute tolerance of 1e-12: a weight below
+            # NEGLIGIBLE may legitimately be reported as zero (and vice versa); everything else must match exactly in support
+            missing = [k for k in exp if k not in got and not _negligible(exp[k])]
+            extra = [k for k in got if k not in exp and not _negligible(got[k])]
+            if missing or extra:
                 viol(OB_MAT, "wrong-support", None, sorted(got), sorted(exp), f"materialize({m})")
-            elif any(not num_close(got[k], exp[k]) for k in exp):
+            elif any(not num_close(got[k], exp[k]) for k in exp if k in got):
                 viol(OB_MAT, "wrong-value", None, got, exp, f"materialize({m})")
         if nontrivial:
             out["keys"].append(sig(case["name"], sr, case["rename"], case["heap"]))
